@@ -51,6 +51,7 @@ class Composed:
         self.features = set()
         self.root = None
         self.namespace_packages = set()    # packages written WITHOUT __init__.py (PEP 420)
+        self.link_packages = False         # top-level package directories are symbolic links
 
     def materialise(self):
         """Write everything below a fresh directory that is put on sys.path; -> main path."""
@@ -71,6 +72,14 @@ class Composed:
             for fn, text in files.items():
                 with open(os.path.join(d, fn), "w", encoding="utf-8") as f:
                     f.write(text)
+        if self.link_packages:
+            store = os.path.join(self.root, "zcv-pkgstore")
+            os.makedirs(store, exist_ok=True)
+            for top in sorted(set(p.split(".")[0] for p in self.packages)):
+                src = os.path.join(self.root, top)
+                if os.path.isdir(src) and not os.path.islink(src):
+                    os.rename(src, os.path.join(store, top))
+                    os.symlink(os.path.join(store, top), src)
         main = os.path.join(self.root, "main", "schema.xml")
         os.makedirs(os.path.dirname(main), exist_ok=True)
         with open(main, "w", encoding="utf-8") as f:
